@@ -27,6 +27,8 @@ type parseContext struct {
 	caseInsensitive   map[lexer.TokenType]bool
 	apply             []*contextFieldSet
 	allowTrailing     bool
+	// Raw position of the first token matched since the innermost capture began, or -1 if nothing has matched yet.
+	firstMatch lexer.RawCursor
 }
 
 func newParseContext(lex *lexer.PeekingLexer, lookahead int, caseInsensitive map[lexer.TokenType]bool) parseContext {
@@ -34,6 +36,14 @@ func newParseContext(lex *lexer.PeekingLexer, lookahead int, caseInsensitive map
 		PeekingLexer:    *lex,
 		caseInsensitive: caseInsensitive,
 		lookahead:       lookahead,
+		firstMatch:      -1,
+	}
+}
+
+// Matched records that the token at the given raw position was matched.
+func (p *parseContext) Matched(cursor lexer.RawCursor) {
+	if p.firstMatch < 0 {
+		p.firstMatch = cursor
 	}
 }
 
@@ -73,6 +83,9 @@ func (p *parseContext) ApplyFrom(mark int) error {
 func (p *parseContext) Accept(branch *parseContext) {
 	p.apply = append(p.apply, branch.apply...)
 	p.PeekingLexer = branch.PeekingLexer
+	if p.firstMatch < 0 {
+		p.firstMatch = branch.firstMatch
+	}
 	if branch.deepestErrorDepth >= p.deepestErrorDepth {
 		p.deepestErrorDepth = branch.deepestErrorDepth
 		p.deepestError = branch.deepestError
